@@ -826,7 +826,8 @@ impl Service {
                         peer_key
                             .log2_distance(&enr.node_id().into())
                             .map(|distance| distances_requested.contains(&distance))
-                            .unwrap_or_else(|| false)
+                            // The peer's own record is at distance 0 from it.
+                            .unwrap_or_else(|| distances_requested.contains(&0))
                     });
 
                     if nodes.len() < before_len {
